@@ -21,6 +21,9 @@ var (
 	hComment = regexp.MustCompile(`^##!(?:[^^$+><=]|$)`)
 )
 
+// marks an entry that a suffix replacement emptied (see rewriteSuffixByHand)
+const emptiedEntry = "\x00emptied-entry\x00"
+
 type handFiles map[string]string
 
 func filesFromTriples(t [][]byte) handFiles {
@@ -118,6 +121,11 @@ func rewriteSuffixByHand(lines []string, pairText string) []string {
 					repl = ""
 				}
 				out[i] = strings.TrimSuffix(l, fs[k]) + repl
+				if out[i] == "" {
+					// an entry rewritten to nothing reaches the assembler as an EMPTY entry; typed in place an empty
+					// line is a blank line and is skipped: the by-hand reading cannot spell this case
+					out[i] = emptiedEntry
+				}
 				break
 			}
 		}
@@ -241,6 +249,9 @@ func oracleInline(p *Pair, env *Env, a [][]byte) *Failure {
 		return nil
 	}
 	byHand := strings.Join(lines, "\n") + "\n"
+	if strings.Contains(byHand, emptiedEntry) {
+		return nil
+	}
 	g1 := p.Impl(Op{"gen.run", a}, env.timeout)
 	args2 := append(append([][]byte{}, a[0:6]...), []byte(byHand))
 	g2 := p.Impl(Op{"gen.run", args2}, env.timeout)
